@@ -153,6 +153,29 @@ impl<'a> Ref<'a> {
                 self.exec(first)?;
                 self.exec(body)?;
             }
+            Prog::Wrap { kind, inner } => {
+                if *kind != 2 {
+                    self.exec(inner)?;
+                }
+            }
+            Prog::Transform { item, key, value } => {
+                self.out.push(Tr::Op(OpRec::Transform { item: *item, key: *key, value: *value }));
+                let m = &mut self.maps[*item as usize - N_VALUES];
+                match value {
+                    Some(v) => {
+                        let prev = m.insert(*key, *v);
+                        let map = m.clone();
+                        self.run_handler(H::Item(*item, Ev::OnUpdate), Args::Update { map, key: *key, prev, new: *v })?;
+                    }
+                    None => match m.remove(key) {
+                        Some(prev) => {
+                            let map = m.clone();
+                            self.run_handler(H::Item(*item, Ev::OnRemove), Args::Remove { map, key: *key, prev })?;
+                        }
+                        None => self.st.remove_absent += 1,
+                    },
+                }
+            }
             Prog::Stop => {
                 self.out.push(Tr::Stopping);
                 self.st.stops += 1;
@@ -568,6 +591,10 @@ impl<'a> Chk<'a> {
                 self.expect(H::Item(item, Ev::OnClear), Args::Clear { prev })
             }
             OpRec::Suspend { .. } => Flow::Done,
+            OpRec::Transform { item, key, value } => match value {
+                Some(v) => self.apply(OpRec::Update { item, key, value: v }),
+                None => self.apply(OpRec::Remove { item, key }),
+            },
         }
     }
 
